@@ -119,8 +119,31 @@ fn junk(vm: &Thread, k: u64) {
 }
 
 /// Histories. Each returns index -> observation (possibly several per index).
-fn run_history(mode: &str, progs: &[Prog], seed: u64) -> Vec<(usize, String)> {
+fn run_history(
+    mode: &str,
+    progs: &[Prog],
+    seed: u64,
+    skip: &std::collections::BTreeSet<usize>,
+    progress: &mut dyn FnMut(usize),
+) -> Vec<(usize, String)> {
     let mut res = vec![];
+    // programs that hang or abort the process are replaced by a trivial one (same index, same
+    // module name), so that the histories keep their shape
+    let trivial = |p: &Prog| Prog {
+        name: p.name.clone(),
+        src: "0\n".into(),
+        prelude: p.prelude,
+        kind: p.kind.clone(),
+        shape: p.shape.clone(),
+    };
+    let mut observe = |vm: &Thread, i: usize| -> String {
+        progress(i);
+        if skip.contains(&i) {
+            observe(vm, &trivial(&progs[i]))
+        } else {
+            observe(vm, &progs[i])
+        }
+    };
     match mode {
         // fresh VM per program, stream order
         "fresh" => {
@@ -129,7 +152,7 @@ fn run_history(mode: &str, progs: &[Prog], seed: u64) -> Vec<(usize, String)> {
                     continue;
                 }
                 let vm = fresh_vm(false);
-                res.push((i, observe(&vm, p)));
+                res.push((i, observe(&vm, i)));
             }
         }
         // one long-lived VM: unrelated work first, other VMs and threads created, heap shifted,
@@ -158,7 +181,7 @@ fn run_history(mode: &str, progs: &[Prog], seed: u64) -> Vec<(usize, String)> {
                         junk(&vm, rng.below(1000));
                         ballast.push(vec![0u8; 1 + rng.below(5000) as usize]);
                     }
-                    res.push((i, observe(&vm, &progs[i])));
+                    res.push((i, observe(&vm, i)));
                 }
             }
         }
@@ -171,8 +194,8 @@ fn run_history(mode: &str, progs: &[Prog], seed: u64) -> Vec<(usize, String)> {
                     if progs[i].prelude != pre {
                         continue;
                     }
-                    res.push((i, observe(&vm, &progs[i])));
-                    res.push((i, observe(&vm, &progs[i])));
+                    res.push((i, observe(&vm, i)));
+                    res.push((i, observe(&vm, i)));
                 }
             }
         }
@@ -182,37 +205,100 @@ fn run_history(mode: &str, progs: &[Prog], seed: u64) -> Vec<(usize, String)> {
 }
 
 fn child_main(argv: &[String]) {
-    // --child <mode> <tier> <seed>
+    // --child <mode> <tier> <seed> <skip,skip,…|->
+    use std::io::Write;
     gv::quiet_panics();
     let mode = &argv[0];
     let tier = &argv[1];
     let seed: u64 = argv[2].parse().unwrap();
+    let skip: std::collections::BTreeSet<usize> = argv
+        .get(3)
+        .map(|s| s.split(',').filter_map(|x| x.parse().ok()).collect())
+        .unwrap_or_default();
     let progs = gen_stream(seed, tier == "thorough");
-    let res = run_history(mode, &progs, seed);
-    let mut out = String::new();
+    let mut progress = |i: usize| {
+        let so = std::io::stdout();
+        let mut so = so.lock();
+        let _ = writeln!(so, "START {}", i);
+        let _ = so.flush();
+    };
+    let res = run_history(mode, &progs, seed, &skip, &mut progress);
+    let so = std::io::stdout();
+    let mut so = so.lock();
     for (i, o) in res {
-        out.push_str(&serde_json::to_string(&(i, o)).unwrap());
-        out.push('\n');
+        let _ = writeln!(so, "{}", serde_json::to_string(&(i, o)).unwrap());
     }
-    print!("{}", out);
+    let _ = writeln!(so, "DONE");
+    let _ = so.flush();
 }
 
-fn run_child(mode: &str, tier: &str, seed: u64) -> Result<Vec<(usize, String)>, String> {
-    let seed_s = seed.to_string();
-    match gv::child::run(
-        &["--child", mode, tier, &seed_s],
-        b"",
-        Duration::from_secs(3000),
-    ) {
-        gv::child::Exit::Ok(s) => {
-            let mut v = vec![];
-            for l in s.lines() {
-                let (i, o): (usize, String) = serde_json::from_str(l).map_err(|e| e.to_string())?;
-                v.push((i, o));
+/// Run one history in a child process under a progress watchdog. `Err(Some(i))`: program `i`
+/// hung (no progress for `stall`) or killed the process; `Err(None)`: the child failed otherwise.
+fn run_child(
+    mode: &str,
+    tier: &str,
+    seed: u64,
+    skip: &std::collections::BTreeSet<usize>,
+) -> Result<Vec<(usize, String)>, Option<usize>> {
+    use std::io::BufRead;
+    use std::process::{Command, Stdio};
+    use std::sync::mpsc;
+    let skip_s = if skip.is_empty() {
+        "-".to_string()
+    } else {
+        skip.iter().map(|x| x.to_string()).collect::<Vec<_>>().join(",")
+    };
+    let mut ch = Command::new(std::env::current_exe().unwrap())
+        .args(["--child", mode, tier, &seed.to_string(), &skip_s])
+        .stdin(Stdio::null())
+        .stdout(Stdio::piped())
+        .stderr(Stdio::null())
+        .spawn()
+        .expect("spawn child");
+    let so = ch.stdout.take().unwrap();
+    let (tx, rx) = mpsc::channel::<String>();
+    let reader = std::thread::spawn(move || {
+        for l in std::io::BufReader::new(so).lines() {
+            match l {
+                Ok(l) => {
+                    if tx.send(l).is_err() {
+                        break;
+                    }
+                }
+                Err(_) => break,
             }
-            Ok(v)
         }
-        other => Err(format!("child {} ended with {}", mode, other.class())),
+    });
+    let stall = Duration::from_secs(20);
+    let mut last_start: Option<usize> = None;
+    let mut res = vec![];
+    let mut done = false;
+    loop {
+        match rx.recv_timeout(stall) {
+            Ok(l) => {
+                if let Some(i) = l.strip_prefix("START ") {
+                    last_start = i.parse().ok();
+                } else if l == "DONE" {
+                    done = true;
+                } else if let Ok((i, o)) = serde_json::from_str::<(usize, String)>(&l) {
+                    res.push((i, o));
+                }
+            }
+            Err(mpsc::RecvTimeoutError::Timeout) => {
+                let _ = ch.kill();
+                let _ = ch.wait();
+                let _ = reader.join();
+                return Err(last_start);
+            }
+            Err(mpsc::RecvTimeoutError::Disconnected) => break,
+        }
+    }
+    let _ = ch.wait();
+    let _ = reader.join();
+    if done {
+        Ok(res)
+    } else {
+        Err(last_start)
     }
 }
 
@@ -301,21 +387,44 @@ fn diff_class(a: &str, b: &str, kind: &str) -> String {
 fn oracle(out: &mut Out, args: &Args, progs: &[Prog]) {
     let tier = args.tier.clone();
     let mut hist: Vec<(String, Vec<(usize, String)>)> = vec![];
-    hist.push(("fresh-inproc".into(), run_history("fresh", progs, args.seed)));
+    // Programs that hang the compiler or abort the process (both exist: a missing occurs check
+    // makes `\x -> if c then x 1 else x` overflow the stack) cannot be observed; they are found by
+    // the watchdog, counted, and replaced by a trivial program in every history.
+    let mut skip = std::collections::BTreeSet::new();
     for mode in ["fresh", "long", "long2", "twice"] {
-        match run_child(mode, &tier, args.seed) {
-            Ok(v) => hist.push((format!("{}-child", mode), v)),
-            Err(e) => {
-                // a crashed child is a harness problem unless it is reproducible per program;
-                // report as oracle failure with a distinct fingerprint so that it is looked at
-                out.oracle_fail(
-                    &format!("child-died:{}", mode),
-                    &e,
-                    serde_json::json!({"mode": mode, "seed": args.seed, "tier": tier}),
-                );
+        let mut tries = 0;
+        loop {
+            tries += 1;
+            match run_child(mode, &tier, args.seed, &skip) {
+                Ok(v) => {
+                    hist.push((format!("{}-child", mode), v));
+                    break;
+                }
+                Err(Some(i)) if tries <= 60 && !skip.contains(&i) => {
+                    out.count("skipped:hang-or-abort");
+                    out.count(&format!("skipped:in:{}", mode));
+                    skip.insert(i);
+                }
+                Err(e) => {
+                    // not a property violation: the harness cannot complete this history
+                    println!("history {} could not be completed in a child process ({:?})", mode, e);
+                    std::process::exit(3);
+                }
             }
         }
     }
+    // in this process last: the children have found the programs that would kill it
+    hist.push((
+        "fresh-inproc".into(),
+        run_history("fresh", progs, args.seed, &skip, &mut |_| ()),
+    ));
+    for (_, obs) in hist.iter_mut() {
+        obs.retain(|(i, _)| !skip.contains(i));
+    }
+    out.stats.insert(
+        "skipped_programs".into(),
+        serde_json::json!(skip.iter().map(|i| progs[*i].src.clone()).take(5).collect::<Vec<_>>()),
+    );
     // reference observation per program: the first one seen
     let mut reference: BTreeMap<usize, (String, String)> = BTreeMap::new();
     let mut reported = std::collections::BTreeSet::new();
@@ -815,7 +924,7 @@ fn replay(args: &Args, file: &std::path::Path) {
     if let (Some(seed), Some(tier), Some(idx)) = (case["seed"].as_u64(), case["tier"].as_str(), case["index"].as_u64()) {
         let _ = args;
         for mode in ["fresh", "long", "long2", "twice"] {
-            if let Ok(obs) = run_child(mode, tier, seed) {
+            if let Ok(obs) = run_child(mode, tier, seed, &Default::default()) {
                 for (i, o) in obs {
                     if i as u64 == idx {
                         println!("history {}-child:\n{}\n", mode, o);
@@ -839,6 +948,13 @@ fn main() {
         // still produce (empty) outputs so that ./check can finish
         let out = Out::new(&args.out);
         out.finish();
+        return;
+    }
+    if let Some(k) = args.extra.iter().position(|x| x == "--src") {
+        // debugging aid: print the source of one program of the stream
+        let progs = gen_stream(args.seed, args.thorough());
+        let i: usize = args.extra[k + 1].parse().unwrap();
+        println!("{}", progs[i].src);
         return;
     }
     if args.extra.iter().any(|x| x == "--dump") {
